@@ -328,6 +328,162 @@ Proof.
   auto_derive; [exact I | ring].
 Qed.
 
+(* ================================================================== the dense matrix behind the CSR rows *)
+Fixpoint sumn (n : nat) (f : nat -> R) : R := match n with O => 0 | S k => sumn k f + f k end.
+
+(* sum of the stored values of a row that carry column index j *)
+Fixpoint ecol (es : list (nat * R)) (j : nat) : R :=
+  match es with
+  | nil => 0
+  | (e :: r)%list => (if Nat.eqb (fst e) j then snd e else 0) + ecol r j
+  end.
+Definition rowOf (rows : list (mrow R)) (i : nat) : mrow R := nth i rows (nil, 0).
+(* the symmetric dense matrix: diagonal, lower triangle from row i, upper triangle mirrored *)
+Definition Mdense (rows : list (mrow R)) (i j : nat) : R :=
+  if Nat.eqb i j then snd (rowOf rows i)
+  else if Nat.ltb j i then ecol (fst (rowOf rows i)) j else ecol (fst (rowOf rows j)) i.
+Definition vMv (rows : list (mrow R)) (v : list R) : R :=
+  sumn (length rows) (fun i : nat => sumn (length rows) (fun j : nat => nth i v 0 * Mdense rows i j * nth j v 0)).
+
+Lemma sumn_ext (n : nat) (f g : nat -> R) : (forall k : nat, (k < n)%nat -> f k = g k) -> sumn n f = sumn n g.
+Proof. induction n as [|n IH]; intros E; simpl; [reflexivity|]. rewrite IH, (E n) by (intros; try apply E; lia). reflexivity. Qed.
+Lemma sumn_plus (n : nat) (f g : nat -> R) : sumn n (fun k : nat => f k + g k) = sumn n f + sumn n g.
+Proof. induction n as [|n IH]; simpl; [ring | rewrite IH; ring]. Qed.
+Lemma sumn_scal (n : nat) (c : R) (f : nat -> R) : sumn n (fun k : nat => c * f k) = c * sumn n f.
+Proof. induction n as [|n IH]; simpl; [ring | rewrite IH; ring]. Qed.
+Lemma sumn_zero (n : nat) (f : nat -> R) : (forall k : nat, (k < n)%nat -> f k = 0) -> sumn n f = 0.
+Proof. induction n as [|n IH]; intros E; simpl; [reflexivity|]. rewrite IH, (E n) by (intros; try apply E; lia). ring. Qed.
+Lemma sumn_fubini (n m : nat) (h : nat -> nat -> R) :
+  sumn n (fun i : nat => sumn m (fun j : nat => h i j)) = sumn m (fun j : nat => sumn n (fun i : nat => h i j)).
+Proof.
+  induction n as [|n IH]; simpl.
+  - symmetry. apply sumn_zero. reflexivity.
+  - rewrite IH, <- sumn_plus. reflexivity.
+Qed.
+Lemma sumn_shift (n : nat) (f : nat -> R) : sumn (S n) f = f O + sumn n (fun k : nat => f (S k)).
+Proof. induction n as [|n IH]; [simpl; ring|]. change (sumn (S (S n)) f) with (sumn (S n) f + f (S n)). rewrite IH. simpl. ring. Qed.
+(* Kronecker delta *)
+Lemma sumn_delta (n c : nat) (a : R) (w : nat -> R) : (c < n)%nat ->
+  sumn n (fun j : nat => (if Nat.eqb c j then a else 0) * w j) = a * w c.
+Proof.
+  induction n as [|n IH]; intros LT; [lia|]. simpl.
+  destruct (Nat.eqb c n) eqn:E.
+  - apply Nat.eqb_eq in E. subst c. rewrite sumn_zero; [ring|].
+    intros k Hk. replace (Nat.eqb n k) with false by (symmetry; apply Nat.eqb_neq; lia). ring.
+  - apply Nat.eqb_neq in E. rewrite IH by lia. ring.
+Qed.
+
+Lemma ecol_zero (es : list (nat * R)) (i j : nat) :
+  List.Forall (fun e : nat * R => (fst e < i)%nat) es -> (i <= j)%nat -> ecol es j = 0.
+Proof.
+  induction es as [|e r IH]; intros WF LE; [reflexivity|].
+  inversion WF as [|? ? He Hr]; subst. cbn [ecol]. cbv beta in He.
+  replace (Nat.eqb (fst e) j) with false by (symmetry; apply Nat.eqb_neq; lia). rewrite IH by assumption. ring.
+Qed.
+
+(* sum over the stored entries = sum over all columns of the column sums *)
+Lemma esum_ecol (v : list R) (i n : nat) (es : list (nat * R)) :
+  List.Forall (fun e : nat * R => (fst e < n)%nat) es ->
+  esum v i es = sumn n (fun j : nat => ecol es j * nth j v 0) * nth i v 0.
+Proof.
+  induction es as [|e r IH]; intros WF.
+  - simpl. rewrite sumn_zero by (intros; ring). ring.
+  - inversion WF as [|? ? He Hr]; subst. cbn [esum ecol]. rewrite IH by assumption.
+    rewrite (sumn_ext n (fun j : nat => ((if Nat.eqb (fst e) j then snd e else 0) + ecol r j) * nth j v 0)
+                        (fun j : nat => (if Nat.eqb (fst e) j then snd e else 0) * nth j v 0 + ecol r j * nth j v 0))
+      by (intros; cbv beta; ring).
+    rewrite sumn_plus, (sumn_delta n (fst e) (snd e) (fun j : nat => nth j v 0)) by assumption. ring.
+Qed.
+
+Lemma qform_sum (v : list R) (rows : list (mrow R)) : forall i0 : nat,
+  qform v i0 rows = sumn (length rows) (fun k : nat => qrow v (i0 + k) (nth k rows (nil, 0))).
+Proof.
+  induction rows as [|row r IH]; intros i0; [reflexivity|].
+  cbn [qform length]. rewrite sumn_shift, IH. cbn [nth]. rewrite Nat.add_0_r. f_equal.
+  apply sumn_ext. intros k _. replace (i0 + S k)%nat with (S i0 + k)%nat by lia. reflexivity.
+Qed.
+
+Lemma wfRows_nth (rows : list (mrow R)) : forall (i0 k : nat),
+  wfRows i0 rows -> (k < length rows)%nat ->
+  List.Forall (fun e : nat * R => (fst e < i0 + k)%nat) (fst (nth k rows (nil, 0))).
+Proof.
+  induction rows as [|row r IH]; intros i0 k WF LT; [simpl in LT; lia|].
+  destruct WF as [WR WT]. destruct k as [|k]; cbn [nth].
+  - rewrite Nat.add_0_r. exact WR.
+  - replace (i0 + S k)%nat with (S i0 + k)%nat by lia. apply IH; [exact WT | simpl in LT; lia].
+Qed.
+
+(* one half v' M v with M the dense symmetric matrix behind the rows *)
+Lemma qform_dense (rows : list (mrow R)) (v : list R) :
+  wfRows 0 rows -> qform v 0 rows = vMv rows v.
+Proof.
+  intros WF. rewrite qform_sum. unfold vMv. set (n := length rows).
+  assert (WR : forall i : nat, (i < n)%nat -> List.Forall (fun e : nat * R => (fst e < i)%nat) (fst (rowOf rows i))).
+  { intros i Hi. apply (wfRows_nth rows 0 i WF Hi). }
+  (* split M into diagonal, lower and upper parts *)
+  set (Dg := fun i j : nat => if Nat.eqb i j then snd (rowOf rows i) else 0).
+  set (Lo := fun i j : nat => if Nat.ltb j i then ecol (fst (rowOf rows i)) j else 0).
+  assert (SPLIT : forall i j : nat, Mdense rows i j = Dg i j + Lo i j + Lo j i).
+  { intros i j. unfold Mdense, Dg, Lo.
+    destruct (Nat.eqb i j) eqn:E.
+    - apply Nat.eqb_eq in E. subst j. rewrite Nat.ltb_irrefl. ring.
+    - apply Nat.eqb_neq in E. destruct (Nat.ltb j i) eqn:L.
+      + apply Nat.ltb_lt in L. replace (Nat.ltb i j) with false by (symmetry; apply Nat.ltb_ge; lia). ring.
+      + apply Nat.ltb_ge in L. replace (Nat.ltb i j) with true by (symmetry; apply Nat.ltb_lt; lia). ring. }
+  set (A := fun i : nat => sumn n (fun j : nat => nth i v 0 * Dg i j * nth j v 0)).
+  set (B := fun i : nat => sumn n (fun j : nat => nth i v 0 * Lo i j * nth j v 0)).
+  set (C := fun i : nat => sumn n (fun j : nat => nth i v 0 * Lo j i * nth j v 0)).
+  assert (S1 : sumn n (fun i : nat => sumn n (fun j : nat => nth i v 0 * Mdense rows i j * nth j v 0)) =
+               sumn n A + sumn n B + sumn n C).
+  { rewrite <- !sumn_plus. apply sumn_ext. intros i _. unfold A, B, C. rewrite <- !sumn_plus.
+    apply sumn_ext. intros j _. rewrite SPLIT. ring. }
+  rewrite S1. clear S1.
+  assert (LOW : forall i : nat, (i < n)%nat -> B i = esum v i (fst (rowOf rows i))).
+  { intros i Hi. unfold B. rewrite (esum_ecol v i n).
+    - rewrite (sumn_ext n (fun j : nat => nth i v 0 * Lo i j * nth j v 0)
+                          (fun j : nat => nth i v 0 * (ecol (fst (rowOf rows i)) j * nth j v 0))).
+      + rewrite sumn_scal. ring.
+      + intros j _. unfold Lo. destruct (Nat.ltb j i) eqn:L; [ring|].
+        apply Nat.ltb_ge in L. rewrite (ecol_zero _ i j (WR i Hi) L). ring.
+    - eapply Forall_impl; [|exact (WR i Hi)]. intros e He. cbv beta in *. lia. }
+  assert (DIAG : forall i : nat, (i < n)%nat -> A i = snd (rowOf rows i) * nth i v 0 * nth i v 0).
+  { intros i Hi. unfold A, Dg.
+    rewrite (sumn_ext n (fun j : nat => nth i v 0 * (if Nat.eqb i j then snd (rowOf rows i) else 0) * nth j v 0)
+                        (fun j : nat => (if Nat.eqb i j then nth i v 0 * snd (rowOf rows i) else 0) * nth j v 0)).
+    - rewrite (sumn_delta n i _ (fun j : nat => nth j v 0)) by assumption. ring.
+    - intros j _. destruct (Nat.eqb i j); ring. }
+  (* the upper part is the lower part with the indices exchanged *)
+  assert (UP : sumn n C = sumn n B).
+  { unfold C. rewrite (sumn_fubini n n (fun i j : nat => nth i v 0 * Lo j i * nth j v 0)).
+    apply sumn_ext. intros j _. unfold B. apply sumn_ext. intros i _. ring. }
+  rewrite UP, (sumn_ext n A _ DIAG), (sumn_ext n B _ LOW).
+  rewrite <- !sumn_plus. apply sumn_ext. intros i _. unfold qrow, rowOf. cbn [Nat.add]. ring.
+Qed.
+
+Lemma energyVel_dense (rows : list (mrow R)) (v : list R) :
+  length v = length rows -> wfRows 0 rows ->
+  energyVel rows v = / 2 * vMv rows v.
+Proof. intros EL WF. rewrite energyVel_qform, qform_dense by assumption. reflexivity. Qed.
+
+Lemma Mdense_sym (rows : list (mrow R)) (i j : nat) : Mdense rows i j = Mdense rows j i.
+Proof.
+  unfold Mdense. destruct (Nat.eqb i j) eqn:E.
+  - apply Nat.eqb_eq in E. subst j. rewrite Nat.eqb_refl. reflexivity.
+  - apply Nat.eqb_neq in E. replace (Nat.eqb j i) with false by (symmetry; apply Nat.eqb_neq; lia).
+    destruct (Nat.ltb j i) eqn:L.
+    + apply Nat.ltb_lt in L. replace (Nat.ltb i j) with false by (symmetry; apply Nat.ltb_ge; lia). reflexivity.
+    + apply Nat.ltb_ge in L. replace (Nat.ltb i j) with true by (symmetry; apply Nat.ltb_lt; lia). reflexivity.
+Qed.
+
+Lemma kinetic_full (rows : list (mrow R)) (v : list R) :
+  length v = length rows -> wfRows 0 rows ->
+  energyVel rows v = / 2 * vMv rows v /\
+  energyVel rows v = / 2 * qform v 0 rows /\
+  (forall i j : nat, Mdense rows i j = Mdense rows j i).
+Proof.
+  intros EL WF. split; [apply energyVel_dense; assumption | split; [apply energyVel_qform; assumption | apply Mdense_sym]].
+Qed.
+
 (* ================================================================== satisfiability (Examples of Props/C08.v) *)
 Lemma kinetic_example :
   let rows : list (mrow R) := ((nil, 2) :: (((0%nat, 1) :: nil), 3) :: (((0%nat, -1) :: (1%nat, / 2) :: nil), 4) :: nil)%list in
